@@ -12,7 +12,7 @@ PROP = dict(
               "C08_one_collection_under_faults", "C08_injected_error_propagates", "C08_failed_read_propagates", "C08_dead_does_nothing",
               "C08_faultfree_is_base", "C08_faultfree_is_base_bytes",
               "C08_bytes_refine_under_faults", "C08_files_parse_under_faults"],
-    suites=["results"],
+    suites=["results", "system"],
     level_text="Machine-checked Lean theorems, by induction over arbitrary operation lists (every interleaving of any "
                "number of appending runners, batches, rows and collecting/cancelling submitter rounds, unbounded), at "
                "lock-operation and file-mutation granularity, over a model whose statement order, lock usage, header "
